@@ -101,6 +101,7 @@ type Conn struct {
 	FailClose      int
 
 	Controls [][]byte // control frames written with WriteControl (gorilla allows them concurrently with everything else)
+	closeSent bool    // a close frame was written: as in gorilla (conn.go: writeFatal(ErrCloseSent)) every later write fails
 	// Block: completing a data message blocks (the peer does not read, the socket buffer is full) until the
 	// connection is closed or Unblock is called
 	Block     bool
@@ -228,10 +229,13 @@ func (c *Conn) Unblock() {
 
 // WriteControl writes a control frame; as in gorilla it may be called concurrently with the other methods.
 func (c *Conn) WriteControl(messageType int, data []byte, deadline time.Time) error {
-	if c.closed {
+	if c.closed || c.closeSent {
 		return ErrCloseSent
 	}
 	c.Controls = append(c.Controls, append([]byte{byte(messageType)}, data...))
+	if messageType == CloseMessage {
+		c.closeSent = true
+	}
 	return nil
 }
 
@@ -266,7 +270,7 @@ func (c *Conn) NextWriter(int) (io.WriteCloser, error) {
 	if hit(&c.FailNextWriter) {
 		return nil, errInjected
 	}
-	if c.closed {
+	if c.closed || c.closeSent {
 		return nil, ErrCloseSent
 	}
 	return &wr{c: c}, nil
